@@ -63,6 +63,10 @@ def stratum(line):
     cfg = cs.get("cfg", {})
     key = ["%s|%s" % (cfg.get("enforce"), bool((cfg.get("default") or {}).get("scheme")))]
     key += ["%s|%s|%s" % (c_["prefix"], bool(c_.get("sec")), bool(c_.get("tag"))) for c_ in cs.get("ctrls", [])]
+    prefixes = {c_["id"]: c_["prefix"] for c_ in cs.get("ctrls", [])}
+    routes = sorted((prefixes.get(m["ctrl"], "") + m.get("route", "")) for m in cs.get("methods", []))
+    # path shape: doubled slashes, trailing slash, several verbs on one path
+    key.append("%s|%s|%s" % (any("//" in r_ for r_ in routes), any(r_.endswith("/") for r_ in routes), len(set(r_.replace("//", "/") for r_ in routes)) < len(routes)))
     for m in cs.get("methods", []):
         key.append("%s|%s|%s" % (m.get("hidden"), bool(m.get("sec")), ",".join(sorted(set(x.get("scheme", "") for x in (m.get("sec") or []) if x.get("scheme") in ("s9", "S1"))))))
         kinds = sorted(set(piece.split(":")[0] for piece in (m.get("ptag") or "").split("+")))
@@ -223,7 +227,7 @@ def build_recording(tier):
     work = os.path.join(sc, "work")
     # (cfg, simulate-walks, sample-size, extra pipe-run flags)
     V0, A0 = ["--validate=false"], ["--alt=false"]
-    plan = [("Pipeline_c04.cfg", None, 800 if thorough else 72, V0), ("Pipeline_c01sim.cfg", 1200 if thorough else 40, None, V0),
+    plan = [("Pipeline_c04.cfg", None, 800 if thorough else 72, V0), ("Pipeline_c01sim.cfg", 1200 if thorough else 40, None, V0), ("Pipeline_c01core.cfg", None, 10 ** 6 if thorough else 32, V0),
             ("Pipeline_sim.cfg", 2500 if thorough else 40, None, V0), ("Pipeline_c06single.cfg", None, 10 ** 6, V0), ("Pipeline_c06grp.cfg", None, 10 ** 6 if thorough else 16, V0), ("Pipeline_c06sim.cfg", 1500 if thorough else 30, None, V0),
             ("Pipeline_c07sim.cfg", 1500 if thorough else 40, None, V0), ("Pipeline_c11rules.cfg", None, 10 ** 6, V0), ("Pipeline_c11rulesp.cfg", None, 10 ** 6, V0), ("Pipeline_c10core.cfg", None, 10 ** 6, A0), ("Pipeline_c10.cfg", None, 1000 if thorough else 40, A0), ("Pipeline_c10mask.cfg", None, 700 if thorough else 40, A0),
             ("Pipeline_c10maskcore.cfg", None, 10 ** 6, A0), ("Pipeline_c10enf.cfg", None, 10 ** 6, A0),
